@@ -12,7 +12,7 @@ EXTENDS Emit
 Grid == IF Thorough THEN Shapes(3, 3) \cup Shapes(5, 2)
         ELSE Shapes(2, 2) \cup {<<3>>, <<2, 3>>, <<3, 1, 2>>, <<2, 2, 2>>, <<1, 2, 1, 2>>, <<2, 1, 2, 1, 2>>, <<6>>, <<4, 5>>, <<2, 5, 3>>, <<17>>, <<18, 2>>}
 GridSeq == SetToSeq(Grid)
-Slopes == <<Q(1, 100), Zero, Half, QI(-1), QI(3), Q(1, 100000000)>>       \* a slope of 1e-8: an implementation that forms 1 +- m loses it
+Slopes == <<Q(1, 100), Zero, Half, QI(-1), QI(3), Q(1, 100000000), QI(-2)>>       \* a slope of 1e-8: an implementation that forms 1 +- m loses it
 
 ElemDescs == Flatten2([i \in DOMAIN GridSeq |->
    << <<"relu", GridSeq[i]>>, <<"sigmoid", GridSeq[i]>>, <<"tanhact", GridSeq[i]>> >>
